@@ -1134,3 +1134,349 @@ Proof.
   intros U s sorted c. apply candidates_target_range_ok;
     [apply tokenize_tok_chain|apply tokenize_tok_in].
 Qed.
+
+(* ---------- examples (non-vacuity) and the source-range counterexample ---------- *)
+Fixpoint sbt_b (l : list mrange) : bool :=
+  match l with
+  | x :: tl => match tl with y :: _ => (ts x <=? ts y) && sbt_b tl | [] => true end
+  | [] => true
+  end.
+
+Lemma sbt_b_ok : forall l, sbt_b l = true -> sorted_by_target l.
+Proof.
+  induction l as [|x l IH]; intros H k r1 r2 H1 H2.
+  - destruct k; discriminate.
+  - destruct l as [|y l'].
+    + destruct k as [|k]; [discriminate|destruct k; discriminate].
+    + cbn [sbt_b] in H. apply andb_true_iff in H. destruct H as [Hxy Hl].
+      destruct k as [|k].
+      * cbn in H1, H2. injection H1 as <-. injection H2 as <-. apply Z.leb_le. exact Hxy.
+      * apply (IH Hl k); assumption.
+Qed.
+
+Definition R (a b c d : Z) : mrange := {| ss := a; se := b; ts := c; te := d |}.
+
+(* two candidates; the first is produced by the first merge branch
+   (the run [R 2 5 5 8] is merged into [R 0 3 0 3; R 5 8 3 6], extending the
+   last range to target end 8 and source end 10) *)
+Definition ex1 : list mrange := [R 0 3 0 3; R 5 8 3 6; R 2 5 5 8; R 1 4 12 15].
+
+Example ex1_hyps : Forall (range_ok 15) ex1 /\ sorted_by_target ex1 /\ ex1 <> [].
+Proof.
+  split; [|split; [apply sbt_b_ok; reflexivity|discriminate]].
+  repeat constructor; cbn; lia.
+Qed.
+
+Example ex1_split :
+  split_ranges (untangle_source_ranges ex1) = [[R 0 3 0 3; R 5 8 3 6]; [R 2 5 5 8]; [R 1 4 12 15]].
+Proof. vm_compute. reflexivity. Qed.
+
+Example ex1_first_branch :
+  merge_step [R 0 3 0 3; R 5 8 3 6] [R 2 5 5 8] = Some [R 0 3 0 3; R 5 10 3 8].
+Proof. vm_compute. reflexivity. Qed.
+
+Example ex1_candidates :
+  candidates_from_sorted ex1 = [[R 0 3 0 3; R 5 10 3 8]; [R 1 4 12 15]].
+Proof. vm_compute. reflexivity. Qed.
+
+(* Under [sorted_by_target] alone the second merge branch is reachable and
+   [ss r < se r] is NOT preserved: te mj1 - te pk is negative here. *)
+Definition ex2 : list mrange := [R 0 1 0 1; R 5 6 1 10; R 2 3 1 2; R 6 7 20 21].
+
+Example ex2_hyps : Forall (range_ok 21) ex2 /\ sorted_by_target ex2 /\ ex2 <> [].
+Proof.
+  split; [|split; [apply sbt_b_ok; reflexivity|discriminate]].
+  repeat constructor; cbn; lia.
+Qed.
+
+Example ex2_second_branch :
+  merge_step [R 0 1 0 1; R 5 6 1 10] [R 2 3 1 2; R 6 7 20 21]
+  = Some [R 0 1 0 1; R 5 (-2) 1 2; R 6 7 20 21].
+Proof. vm_compute. reflexivity. Qed.
+
+Example ex2_candidates :
+  candidates_from_sorted ex2 = [[R 0 1 0 1; R 5 (-2) 1 2; R 6 7 20 21]].
+Proof. vm_compute. reflexivity. Qed.
+
+Example src_nonempty_not_preserved :
+  exists n sorted c r,
+    Forall (range_ok n) sorted /\ sorted_by_target sorted /\ sorted <> [] /\
+    In c (candidates_from_sorted sorted) /\ In r c /\ se r < ss r.
+Proof.
+  exists 21, ex2, [R 0 1 0 1; R 5 (-2) 1 2; R 6 7 20 21], (R 5 (-2) 1 2).
+  destruct ex2_hyps as (H1 & H2 & H3).
+  split; [exact H1|]. split; [exact H2|]. split; [exact H3|]. split; [|split].
+  - rewrite ex2_candidates. left. reflexivity.
+  - right. left. reflexivity.
+  - cbn. lia.
+Qed.
+
+(* ---------- under the full order of MatchRanges.Less ---------- *)
+(* sort.Sort with MatchRanges.Less (ts, then ss) gives, for adjacent elements,
+   not (Less r2 r1).  Under this stronger hypothesis the second branch of
+   merge_step is never taken and [ss r < se r] IS preserved. *)
+Definition rk (r : mrange) : Prop := ss r < se r.
+Definition lexle (a b : mrange) : Prop := ts a < ts b \/ (ts a = ts b /\ ss a <= ss b).
+Definition sorted_lex (l : list mrange) : Prop :=
+  forall k r1 r2, nth_error l k = Some r1 -> nth_error l (S k) = Some r2 -> lexle r1 r2.
+
+Lemma lexle_not_less : forall a b, lexle a b <-> mr_lt b a = false.
+Proof.
+  intros a b. unfold lexle, mr_lt.
+  destruct (Z.ltb_spec (ts b) (ts a)), (Z.eqb_spec (ts b) (ts a)), (Z.ltb_spec (ss b) (ss a));
+    cbn; split; intros; try reflexivity; try discriminate; lia.
+Qed.
+
+Lemma sorted_lex_sorted_by_target : forall l, sorted_lex l -> sorted_by_target l.
+Proof. intros l H k r1 r2 H1 H2. specialize (H k r1 r2 H1 H2). unfold lexle in H. lia. Qed.
+
+Lemma consec_ssorted : forall (A : Type) (R : A -> A -> Prop),
+  (forall a b c, R a b -> R b c -> R a c) ->
+  forall l, (forall k a b, nth_error l k = Some a -> nth_error l (S k) = Some b -> R a b) ->
+  StronglySorted R l.
+Proof.
+  intros A R Htr. induction l as [|x l IH]; intros H.
+  - constructor.
+  - assert (IHs : StronglySorted R l).
+    { apply IH. intros k a b Ha Hb. apply (H (S k)); assumption. }
+    constructor; [exact IHs|].
+    destruct l as [|y l']; [constructor|].
+    assert (Hxy : R x y) by (apply (H 0%nat); reflexivity).
+    constructor; [exact Hxy|].
+    apply StronglySorted_inv in IHs. destruct IHs as [_ IHs].
+    eapply Forall_impl; [|exact IHs]. cbn. intros z Hz. eapply Htr; eassumption.
+Qed.
+
+Lemma sorted_lex_ssorted : forall l, sorted_lex l -> StronglySorted lexle l.
+Proof.
+  intros l H. apply consec_ssorted; [|exact H].
+  unfold lexle. intros a b c H1 H2. lia.
+Qed.
+
+Lemma hd_error_app : forall (A : Type) (l l' : list A),
+  l <> [] -> hd_error (l ++ l') = hd_error l.
+Proof. intros A [|x l] l' H; [congruence|reflexivity]. Qed.
+
+Lemma split_aux_acc : forall m cur_rev out_rev,
+  split_ranges_aux m cur_rev out_rev = rev out_rev ++ split_ranges_aux m cur_rev [].
+Proof.
+  induction m as [|m rest IH]; intros cur_rev out_rev.
+  - reflexivity.
+  - destruct cur_rev as [|last c]; cbn [split_ranges_aux].
+    + apply IH.
+    + destruct (ss m <? ss last).
+      * rewrite (IH _ (_ :: out_rev)), (IH _ [_]). cbn [rev app]. rewrite <- app_assoc. reflexivity.
+      * apply IH.
+Qed.
+
+(* boundary condition between consecutive lists: the last range of a list
+   starts strictly before the first range of the next one *)
+Fixpoint bstrict (pl : option mrange) (L : list (list mrange)) : Prop :=
+  match L with
+  | [] => True
+  | cur :: L' =>
+    cur <> [] /\
+    (forall p c0, pl = Some p -> hd_error cur = Some c0 -> ts p < ts c0) /\
+    bstrict (hd_error (rev cur)) L'
+  end.
+
+Lemma split_aux_bstrict : forall m cur_rev pl,
+  cur_rev <> [] -> StronglySorted lexle (rev cur_rev ++ m) ->
+  (forall p c0, pl = Some p -> hd_error (rev cur_rev) = Some c0 -> ts p < ts c0) ->
+  bstrict pl (split_ranges_aux m cur_rev []).
+Proof.
+  induction m as [|m rest IH]; intros cur_rev pl Hne HS Hpl.
+  - cbn. split; [apply rev_nonempty; exact Hne|]. split; [exact Hpl|exact I].
+  - destruct cur_rev as [|last c]; [congruence|]. cbn [split_ranges_aux].
+    destruct (ss m <? ss last) eqn:E.
+    + rewrite split_aux_acc. set (A := rev (last :: c)) in *.
+      cbn [rev app bstrict].
+      split; [apply rev_nonempty; exact Hne|]. split; [exact Hpl|].
+      unfold A. rewrite rev_involutive. cbn [hd_error].
+      apply IH; [discriminate| |].
+      * cbn [rev app]. eapply ssorted_app_r. exact HS.
+      * intros p c0 Hp Hc. injection Hp as <-. cbn in Hc. injection Hc as <-.
+        apply Z.ltb_lt in E.
+        assert (Hl : lexle last m).
+        { eapply ssorted_app_pair; [exact HS| |left; reflexivity].
+          unfold A. apply in_rev. rewrite rev_involutive. left. reflexivity. }
+        unfold lexle in Hl. lia.
+    + apply IH; [discriminate| |].
+      * replace (rev (m :: last :: c) ++ rest) with (rev (last :: c) ++ m :: rest)
+          by (cbn [rev]; rewrite <- !app_assoc; reflexivity).
+        exact HS.
+      * intros p c0 Hp Hc. apply (Hpl p c0 Hp).
+        change (rev (m :: last :: c)) with (rev (last :: c) ++ [m]) in Hc.
+        rewrite hd_error_app in Hc by (apply rev_nonempty; discriminate). exact Hc.
+Qed.
+
+Lemma bstrict_mono : forall L pl pl',
+  (forall p, pl' = Some p -> exists q, pl = Some q /\ ts p <= ts q) ->
+  bstrict pl L -> bstrict pl' L.
+Proof.
+  intros [|cur L] pl pl' H HB; [exact I|]. cbn [bstrict] in *.
+  destruct HB as (A & B & C). split; [exact A|]. split; [|exact C].
+  intros p c0 Hp Hc. destruct (H p Hp) as [q [Hq Hle]]. specialize (B q c0 Hq Hc). lia.
+Qed.
+
+(* with a strict boundary, merge_step is its first branch only *)
+Lemma merge_step_second_branch_dead : forall prev cur pl rp c0 ctl,
+  rev prev = pl :: rp -> cur = c0 :: ctl -> ts pl < ts c0 ->
+  merge_step prev cur =
+  if ts c0 <? te pl
+  then Some (set_last prev
+               (if te pl <? te c0
+                then {| ss := ss pl; se := se pl + (te c0 - te pl); ts := ts pl; te := te c0 |}
+                else pl) ++ ctl)
+  else None.
+Proof.
+  intros prev cur pl rp c0 ctl Hr -> Hlt. unfold merge_step. rewrite Hr.
+  destruct (ts c0 <? te pl); [|reflexivity].
+  destruct (Z.ltb_spec (ts pl) (ts c0)); [reflexivity|lia].
+Qed.
+
+Lemma merge_step_lex : forall prev cur rest,
+  Forall rk prev -> Forall rk cur -> bstrict (hd_error (rev prev)) (cur :: rest) ->
+  match merge_step prev cur with
+  | Some merged => merged <> [] /\ Forall rk merged /\ bstrict (hd_error (rev merged)) rest
+  | None => True
+  end.
+Proof.
+  intros prev cur rest Hp Hc HB. cbn [bstrict] in HB. destruct HB as (A & B & C).
+  destruct (rev prev) as [|pl rp] eqn:Hr.
+  { unfold merge_step. rewrite Hr. exact I. }
+  destruct cur as [|c0 ctl]; [congruence|].
+  assert (Hlt : ts pl < ts c0) by (apply B; reflexivity).
+  rewrite (merge_step_second_branch_dead prev (c0 :: ctl) pl rp c0 ctl Hr eq_refl Hlt).
+  destruct (ts c0 <? te pl); [|exact I].
+  set (pl' := if te pl <? te c0 then _ else pl).
+  assert (Hts : ts pl' = ts pl) by (unfold pl'; destruct (te pl <? te c0); reflexivity).
+  rewrite (set_last_eq prev pl rp _ Hr).
+  pose proof (rev_cons_decomp _ _ _ _ Hr) as Hprev. rewrite Hprev in Hp.
+  apply Forall_app in Hp. destruct Hp as [Hp1 Hp2]. pose proof (Forall_inv Hp2) as Hpl.
+  split; [|split].
+  - intros E. apply app_eq_nil in E. destruct E as [E _].
+    apply app_eq_nil in E. destruct E as [_ E]. discriminate.
+  - apply Forall_app. split; [|eapply Forall_inv_tail; exact Hc].
+    apply Forall_app. split; [exact Hp1|]. constructor; [|constructor].
+    unfold pl'. destruct (Z.ltb_spec (te pl) (te c0)); [|exact Hpl].
+    unfold rk in *. cbn. lia.
+  - eapply bstrict_mono; [|exact C]. rewrite rev_app_distr.
+    destruct ctl as [|x ctl'].
+    + cbn [rev app]. rewrite rev_app_distr. cbn [rev app hd_error].
+      intros p Hp. injection Hp as <-. exists c0. split; [reflexivity|lia].
+    + rewrite hd_error_app by (apply rev_nonempty; discriminate).
+      intros p Hp. exists p. split; [|lia].
+      change (rev (c0 :: x :: ctl')) with (rev (x :: ctl') ++ [c0]).
+      rewrite hd_error_app by (apply rev_nonempty; discriminate). exact Hp.
+Qed.
+
+Lemma merge_aux_lex : forall rest prev older,
+  Forall (Forall rk) (prev :: older) -> Forall (Forall rk) rest ->
+  bstrict (hd_error (rev prev)) rest ->
+  Forall (Forall rk) (merge_consecutive_aux rest (prev :: older)).
+Proof.
+  induction rest as [|cur rest' IH]; intros prev older HF HR HB.
+  - cbn [merge_consecutive_aux]. apply Forall_rev. exact HF.
+  - cbn [merge_consecutive_aux].
+    pose proof (merge_step_lex prev cur rest' (Forall_inv HF) (Forall_inv HR) HB) as HM.
+    destruct (merge_step prev cur) as [merged|].
+    + destruct HM as (M1 & M2 & M3). apply IH; [|eapply Forall_inv_tail; exact HR|exact M3].
+      constructor; [exact M2|eapply Forall_inv_tail; exact HF].
+    + cbn [bstrict] in HB. destruct HB as (A & B & C).
+      apply IH; [|eapply Forall_inv_tail; exact HR|exact C].
+      constructor; [eapply Forall_inv; exact HR|exact HF].
+Qed.
+
+Lemma coalesce_aux_rk : forall l acc_rev,
+  Forall rk acc_rev -> Forall rk l -> Forall rk (coalesce_aux l acc_rev).
+Proof.
+  induction l as [|m rest IH]; intros acc_rev Ha Hl.
+  - cbn [coalesce_aux]. apply Forall_rev. exact Ha.
+  - pose proof (Forall_inv Hl) as Hm. pose proof (Forall_inv_tail Hl) as Hr.
+    destruct acc_rev as [|c older]; cbn [coalesce_aux].
+    + apply IH; [constructor; [exact Hm|constructor]|exact Hr].
+    + destruct ((ss m <=? se c) && (ss c <=? ss m)).
+      * apply IH; [|exact Hr]. constructor; [|eapply Forall_inv_tail; exact Ha].
+        pose proof (Forall_inv Ha) as Hc. unfold rk in *. cbn. lia.
+      * apply IH; [|exact Hr]. constructor; assumption.
+Qed.
+
+Lemma coalesce_rk : forall l, Forall rk l -> Forall rk (coalesce l).
+Proof.
+  intros [|m0 rest] H; [constructor|]. unfold coalesce.
+  apply coalesce_aux_rk; [constructor; [eapply Forall_inv; exact H|constructor]|].
+  eapply Forall_inv_tail. exact H.
+Qed.
+
+Theorem cand_src_nonempty_lex : forall n sorted,
+  Forall (range_ok n) sorted -> sorted_lex sorted -> sorted <> [] ->
+  Forall (Forall (fun r => ss r < se r)) (candidates_from_sorted sorted).
+Proof.
+  intros n sorted HR HS Hne. destruct sorted as [|m0 rest]; [congruence|].
+  unfold candidates_from_sorted. fold rk.
+  assert (Hmap : forall L, Forall (Forall rk) L -> Forall (Forall rk) (map coalesce L)).
+  { induction L as [|l L IH]; intros H; cbn; constructor.
+    - apply coalesce_rk. eapply Forall_inv. exact H.
+    - apply IH. eapply Forall_inv_tail. exact H. }
+  apply Hmap.
+  destruct (untangle_source_ranges_spec m0 rest) as [l' [E Sub]]. rewrite E.
+  assert (Sub' : subseq (m0 :: l') (m0 :: rest)) by (apply sub_keep; exact Sub).
+  assert (Hrk : Forall rk (m0 :: l')).
+  { eapply subseq_Forall; [exact Sub'|]. eapply Forall_impl; [|exact HR]. intros r [_ H]. exact H. }
+  assert (Hlex : StronglySorted lexle (m0 :: l')).
+  { eapply subseq_ssorted; [exact Sub'|]. apply sorted_lex_ssorted. exact HS. }
+  assert (HB : bstrict None (split_ranges (m0 :: l'))).
+  { unfold split_ranges. apply split_aux_bstrict; [discriminate|exact Hlex|].
+    intros p c0 Hp. discriminate. }
+  assert (HF : Forall (Forall rk) (split_ranges (m0 :: l'))).
+  { apply Forall_concat'. rewrite split_ranges_concat. exact Hrk. }
+  destruct (split_ranges (m0 :: l')) as [|l0 Lr]; [constructor|].
+  unfold merge_consecutive_ranges. cbn [bstrict] in HB. destruct HB as (A & B & C).
+  apply merge_aux_lex; [|eapply Forall_inv_tail; exact HF|exact C].
+  constructor; [eapply Forall_inv; exact HF|constructor].
+Qed.
+
+(* all of range_ok is preserved under the Less order *)
+Corollary cand_range_ok_lex : forall n sorted,
+  Forall (range_ok n) sorted -> sorted_lex sorted -> sorted <> [] ->
+  Forall (Forall (range_ok n)) (candidates_from_sorted sorted).
+Proof.
+  intros n sorted HR HS Hne.
+  pose proof (cand_bounds n sorted HR (sorted_lex_sorted_by_target _ HS) Hne) as H1.
+  pose proof (cand_src_nonempty_lex n sorted HR HS Hne) as H2.
+  rewrite Forall_forall in *. intros c Hc. specialize (H1 c Hc). specialize (H2 c Hc).
+  rewrite Forall_forall in *. intros r Hr. split; [apply H1|apply H2]; exact Hr.
+Qed.
+
+(* ex1 is sorted for Less, ex2 is not *)
+Example ex1_lex : sorted_lex ex1.
+Proof.
+  intros k r1 r2 H1 H2.
+  do 4 (destruct k as [|k]; [cbn in H1, H2; try discriminate;
+                            injection H1 as <-; injection H2 as <-; unfold lexle; cbn; lia|]).
+  destruct k; discriminate.
+Qed.
+
+Example ex2_not_lex : ~ sorted_lex ex2.
+Proof.
+  intros H. specialize (H 1%nat (R 5 6 1 10) (R 2 3 1 2) eq_refl eq_refl).
+  unfold lexle in H. cbn in H. lia.
+Qed.
+
+(* ================================================================== *)
+Print Assumptions tokenize_final.
+Print Assumptions tok_text_at.
+Print Assumptions tok_ordered.
+Print Assumptions tok_cover.
+Print Assumptions unfixed_refuted.
+Print Assumptions candidates_ok.
+Print Assumptions cand_nonempty.
+Print Assumptions cand_bounds.
+Print Assumptions cand_concat_sorted.
+Print Assumptions cand_ordered.
+Print Assumptions cand_first_least.
+Print Assumptions target_range_ok.
+Print Assumptions candidates_target_range_tokenize.
+Print Assumptions src_nonempty_not_preserved.
+Print Assumptions cand_range_ok_lex.
